@@ -31,8 +31,9 @@ std::string h_gen(Src& s) {
     int elem = (int)s.choose(6); int nt = s.range(2, 4);
     static const int pf[] = { 0, 1, 3, 7, 9, 31, 33, 65, 70 }; int prefill = pf[s.choose(9)];
     if (bounded && prefill > cap) prefill = s.range(0, cap);
+    static const int TAIL[] = { 0, 9, 17, 40 };
     int thr = s.coin(5) ? s.range(1, 6) : 0; int athr = (!thr && !drv_flag("--no-alloc-fault") && s.coin(7)) ? s.range(1, 4) : 0;
-    std::string o = "queue bounded=" + std::to_string(bounded) + " cap=" + std::to_string(cap) + " elem=" + std::to_string(elem) + " prefill=" + std::to_string(prefill) + " threads=" + std::to_string(nt) + " throw=" + std::to_string(thr) + (athr ? " athrow=" + std::to_string(athr) : "") + "\n";
+    std::string o = "queue bounded=" + std::to_string(bounded) + " cap=" + std::to_string(cap) + " elem=" + std::to_string(elem) + " prefill=" + std::to_string(prefill) + " threads=" + std::to_string(nt) + " throw=" + std::to_string(thr) + (athr ? " athrow=" + std::to_string(athr) : "") + " tail=" + std::to_string(TAIL[s.weighted({ 4, 2, 2, athr ? 4u : 1u })]) + "\n";
     bool abort_used = athr != 0;   // allocation failure is not combined with abort(): abort_push allocates inside a clean-up guard (destructor) -> std::terminate (DESIGN 11.17)
     for (int t = 0; t < nt; t++) {
         o += "t " + std::to_string(t); int nops = s.range(1, 7);
@@ -58,6 +59,7 @@ std::string h_gen(Src& s) {
 static long g_ctor_count = 0, g_throw_at = 0; static bool g_armed = false; static long g_live = 0;
 struct Boom { int v; };
 static long g_alloc_count = 0, g_athrow_at = 0; static int g_alloc_fired = 0;
+static std::string g_line0; static long n_tail_pushed = 0, n_tail_failed = 0;
 template <class T> struct QAlloc {     // page allocator that fails at the generated index (only while armed)
     using value_type = T; using is_always_equal = std::true_type;
     QAlloc() = default; template <class U> QAlloc(const QAlloc<U>&) {}
@@ -192,7 +194,7 @@ template <class Q, class E> struct Runner {
     static void run(Case& c) {
         Q* q = new Q; g_q = q;
         if constexpr (is_bounded_q<Q>::value) q->set_capacity(g_cap);
-        long prefill = kvl(c.lines[0], "prefill", 0);
+        long prefill = kvl(c.lines[0], "prefill", 0); g_line0 = c.lines[0];
         for (long i = 0; i < prefill; i++) { E e(10000 + (int)i); q->push(e); g_initial.push_back(10000 + (int)i); }
         g_armed = true;
         vs_on_deadlock(on_deadlock); vs_on_fixpoint([](const char* d) { if (!g_witness && abort_window_shape()) excluded_exit("excluded_abort_window_posthoc"); vs_violation("SPIN-FIXPOINT", "%s %s", d, H.size() < 30 ? lin_dump(H, KN).c_str() : ""); });
@@ -226,6 +228,14 @@ template <class Q, class E> void Runner<Q, E>::judge(bool deadlocked, const char
         else if (blocked_pushes > 0 && g_bounded && remaining < g_cap && blocked_pops == 0) vs_violation("LOST-WAKEUP", "%ld push(es) blocked for ever although only %ld of %ld slots are used (%s)", blocked_pushes, remaining, g_cap, detail);
         if (blocked_pops == 0 && blocked_pushes == 0) vs_violation("DEADLOCK", "%s", detail);
     } else {
+        // tail: more sequential pushes after everything (fresh values), so that every lane -- also one that a failed page allocation has marked
+        // invalid -- is visited a few more times before the drain; a push may fail there (bad_last_alloc / bad_alloc by design), the others count
+        { long tail = kvl(g_line0, "tail", 0);
+          for (long i = 0; i < tail; i++) {
+              int v = 20000 + (int)i; bool ok = false;
+              try { E e(v); if constexpr (is_bounded_q<Q>::value) ok = q.try_push(e); else { q.push(e); ok = true; } } catch (...) { ok = false; n_tail_failed++; }
+              if (ok) { pushed[v]++; n_tail_pushed++; LinOp o; o.thread = 99; o.kind = K_PUSH; o.ok = true; o.a = v; o.inv = vs_now(); o.resp = vs_now(); H.push_back(o); }
+          } }
         // final drain (sequential, after everything): checks FIFO order of what is left and conservation
         std::vector<int> rest; { E e; while (q.try_pop(e)) { LinOp o; o.thread = 99; o.kind = K_TRYPOP; o.ok = true; o.ret = e.v; o.inv = vs_now(); o.resp = vs_now(); H.push_back(o); rest.push_back(e.v); if (popped.count(e.v)) vs_violation("DUPLICATED-ITEM", "value %d popped and still in the queue", e.v); popped[e.v]++; if (rest.size() > 10000) break; } }
         { LinOp o; o.thread = 99; o.kind = K_TRYPOP; o.ok = false; o.inv = vs_now(); o.resp = vs_now(); H.push_back(o); }
@@ -252,6 +262,7 @@ template <class Q, class E> void Runner<Q, E>::judge(bool deadlocked, const char
     vs_stat_add("n_excluded", n_excl_dead); if (n_excl_dead) vs_stat_flag("excluded_dead_slot");
     vs_stat_add("n_blocked_forever", n_blocked); vs_stat_add("n_lin_checked", lin == 1 ? 1 : 0); vs_stat_add("n_lin_budget", lin == -1 ? 1 : 0);
     if (n_aborted) vs_stat_flag("aborted_caller"); if (n_threw) vs_stat_flag("ctor_threw"); if (deadlocked) vs_stat_flag("blocked_forever_legit"); if (n_excluded) vs_stat_flag("excluded_abort_window");
+    vs_stat_add("n_tail_pushed", n_tail_pushed); vs_stat_add("n_tail_failed", n_tail_failed); if (n_tail_failed) vs_stat_flag("push_into_invalid_lane_failed");
     vs_stat_flag(g_bounded ? "bounded" : "unbounded");
     vs_stat_add("nt", n_overlap > 0 ? 1 : 0);
     vs_ok();
